@@ -44,6 +44,36 @@ func genC02(r *Rng) *Case {
 	return &Case{Prop: "C02", Check: "sign", Op: op}
 }
 
+// enumSignLengths: every context length 0..257 for Ed25519ctx and Ed25519ph,
+// and every message length 0..260 (all SHA-512 padding phases twice over) for
+// the pure variant in both option forms.
+func enumSignLengths() []*Case {
+	var out []*Case
+	seed := uint64(0xC02)
+	add := func(op *Op) {
+		seed++
+		op.Seed = mix64(seed)
+		out = append(out, &Case{Prop: "C02", Check: "sign", Op: op})
+	}
+	for c := 0; c <= 257; c++ {
+		add(&Op{Fn: "PrivSign", Opt: Opt{Ctx: c}, ML: c % 70})
+		add(&Op{Fn: "PrivSign", Opt: Opt{Hash: 1, Ctx: c}})
+	}
+	for ml := 0; ml <= 260; ml++ {
+		add(&Op{Fn: "PrivSign", ML: ml, Opt: Opt{Form: ml % 2}})
+		add(&Op{Fn: "Sign", ML: ml})
+	}
+	for _, ml := range []int{0, 1, 63, 65, 128} {
+		add(&Op{Fn: "PrivSign", Opt: Opt{Hash: 1}, ML: ml, Alias: 9})
+		add(&Op{Fn: "PrivSign", Opt: Opt{Hash: 1, Form: 1}, ML: ml, Alias: 9})
+	}
+	for h := 2; h <= 4; h++ {
+		add(&Op{Fn: "PrivSign", Opt: Opt{Hash: h}, ML: 64})
+		add(&Op{Fn: "PrivSign", Opt: Opt{Hash: h, Form: 1}, ML: 64})
+	}
+	return out
+}
+
 func c02Seed(op *Op) []byte {
 	s := signerSeed(op.Seed, 0)
 	switch op.Other {
